@@ -919,6 +919,10 @@ func c16ExecOne(args []string) {
 		for i := 0; i < count; i++ {
 			w.textCase(first + i)
 		}
+	case "concurrent":
+		for i := 0; i < count; i++ {
+			w.concurrentDecoders(first + i)
+		}
 	}
 	if w.drv != nil {
 		w.out.DriverReq = w.drv.n
@@ -1032,6 +1036,8 @@ func checkC16(c *Ctx) {
 	perX := (nTexts + workers*2 - 1) / (workers * 2)
 	split("types", nTypes, perT)
 	split("texts", nTexts, perX)
+	nConc := c.scale(12, 200)
+	split("concurrent", nConc, nConc)
 	type pendingFinding struct {
 		f     Finding
 		extra int
